@@ -26,6 +26,6 @@ sys.exit(1 if missing else 0)
 PY
 rc=$?
 # the suite itself rewrites these tracked files; put them back
-git -C $REPO checkout -- src/plzinit/BUILD test/go.mod test/go.sum 2>/dev/null
+for f in src/plzinit/BUILD test/go.mod test/go.sum; do git -C $REPO checkout -- $f 2>/dev/null; done
 rm -f $OUT
 exit $rc
